@@ -1549,3 +1549,137 @@ Qed.
 (* whatever text the provider sends (given by code points), cutting it at ANY n gives a well-formed text of <= n bytes *)
 Theorem cut_of_text_wf sg n : WfU8 (cut_floor n (seg_bytes sg)) /\ nlen (cut_floor n (seg_bytes sg)) <= n.
 Proof. apply cut_floor_wf, seg_bytes_wf. Qed.
+
+(* ---------- the single exit under failing side writes (run07d) ---------- *)
+(* with nothing in the gate the failing side writes of a run change nothing it logs … *)
+Lemma run_session_x_ungated gate f g sid link aok inp : gate_unconditional gate = true ->
+  run_session_x gate f g sid link aok inp = run_session g sid link aok inp.
+Proof. destruct gate; [reflexivity | discriminate]. Qed.
+
+Lemma act_events_x_ungated gate swf aok a : gate_unconditional gate = true ->
+  act_events_x gate swf aok a = act_events aok a.
+Proof.
+  intros G. destruct a as [g mid sid inp | g sid inp | j o]; cbn [act_events_x act_events]; [| apply run_session_x_ungated, G | reflexivity].
+  unfold post_message_x, post_message. rewrite (run_session_x_ungated gate (swf sid) g sid (Some mid) aok inp G). reflexivity.
+Qed.
+
+Lemma map_act_events_x_ungated gate swf aok acts : gate_unconditional gate = true ->
+  map (act_events_x gate swf aok) acts = map (act_events aok) acts.
+Proof. intros G. apply map_ext. intros a. apply act_events_x_ungated, G. Qed.
+
+(* … so every run announced on the thread is closed exactly once, whatever side writes fail in whichever runs … *)
+Theorem one_end_per_spawn_x gate swf aok acts l g mid sid inp :
+  gate_unconditional gate = true ->
+  WfActs acts -> Interleave (map (act_events_x gate swf aok) acts) l -> In (APost g mid sid inp) acts ->
+  aok (CMessage mid) = true -> aok (CRunSpawned sid mid) = true ->
+  (forall r, aok (CRunEnded sid mid r) = true) ->
+  count_ck (is_end_of sid) l = 1%nat.
+Proof.
+  intros G W I. rewrite (map_act_events_x_ungated gate swf aok acts G) in I. exact (one_end_per_spawn aok acts l g mid sid inp W I).
+Qed.
+
+(* … right after its own terminal session frame, with that frame's reason *)
+Theorem thread_order_x gate swf aok acts l g mid sid inp :
+  gate_unconditional gate = true ->
+  WfActs acts -> Interleave (map (act_events_x gate swf aok) acts) l -> In (APost g mid sid inp) acts ->
+  (forall k, aok k = true) ->
+  exists pre q r,
+    filter (of_run sid) l
+    = EC (CRunSpawned sid mid) :: ES sid 0 SStarted :: pre ++ [ES sid q (SEnded r); EC (CRunEnded sid mid r)]
+    /\ mid_kinds (map snd (sess_stream sid pre)) = true
+    /\ ThreadShape sid mid (conts (filter (of_run sid) l)) r.
+Proof.
+  intros G W I. rewrite (map_act_events_x_ungated gate swf aok acts G) in I. exact (thread_order aok acts l g mid sid inp W I).
+Qed.
+
+(* the session stream keeps its shape under EVERY gate and failure pattern (the gate only concerns the thread frame) *)
+Lemma sess_stream_run_session_x gate f g sid link aok inp :
+  sess_stream sid (run_session_x gate f g sid link aok inp) = sess_stream sid (run_session g sid link aok inp).
+Proof.
+  unfold run_session_x, run_session. rewrite !sess_stream_app. f_equal.
+  destruct link as [mid|]; [|reflexivity]. destruct (gate_open gate f); [reflexivity|].
+  rewrite sess_stream_capp. reflexivity.
+Qed.
+
+(* a run whose gated side write fails: everything of run_session except the closing thread frame *)
+Lemma run_session_x_closed gate f g sid mid aok inp : gate_open gate f = false ->
+  run_session_x gate f g sid (Some mid) aok inp = ES sid 0 SStarted :: run_body g sid (Some mid) aok inp.
+Proof. intros G. unfold run_session_x. rewrite G, app_nil_r. reflexivity. Qed.
+
+Lemma run_body_pre_ck g sid link aok inp : forallb (pre_ck sid) (conts (run_body g sid link aok inp)) = true.
+Proof.
+  destruct (run_body_struct g sid link aok inp) as (pre & q & r & E & _ & sel & n & cur & C & Hsel & Hcur).
+  rewrite E, conts_app. cbn [conts flat_map app]. rewrite app_nil_r, C, !forallb_app.
+  rewrite (forallb_repeat (pre_ck sid)) by (cbn [pre_ck]; apply N.eqb_refl).
+  assert (S : forallb (pre_ck sid) sel = true).
+  { destruct Hsel as [->|(mid & _ & ->)]; [reflexivity|]. rewrite conts_app, !conts_capp.
+    destruct (aok (CSelection sid mid)), (aok (CCompiled sid)); cbn [app forallb pre_ck]; rewrite ?N.eqb_refl; reflexivity. }
+  assert (U : forallb (pre_ck sid) cur = true).
+  { destruct Hcur as [->| ->]; cbn [forallb pre_ck]; rewrite ?N.eqb_refl; reflexivity. }
+  rewrite S, U. reflexivity.
+Qed.
+
+Lemma run_session_x_no_end gate f g sid mid aok inp : gate_open gate f = false ->
+  count_ck (is_end_of sid) (run_session_x gate f g sid (Some mid) aok inp) = 0%nat.
+Proof.
+  intros G. rewrite (run_session_x_closed gate f g sid mid aok inp G).
+  unfold count_ck. rewrite count_conts, conts_cons_s.
+  rewrite (filter_none (is_end_of sid) (pre_ck sid) _ (fun k Hk => ltac:(destruct k; try discriminate; reflexivity)) (run_body_pre_ck g sid (Some mid) aok inp)).
+  reflexivity.
+Qed.
+
+(* every non-empty gate can be closed by ONE failing side write (its first member) *)
+Lemma side_write_eqb_refl w : side_write_eqb w w = true.
+Proof. destruct w; reflexivity. Qed.
+Lemma gate_closable gate : gate_unconditional gate = false ->
+  exists w, In w gate /\ gate_open gate (side_write_eqb w) = false.
+Proof.
+  destruct gate as [|w rest]; [discriminate|]. intros _. exists w. split; [left; reflexivity|].
+  unfold gate_open. cbn [existsb]. rewrite side_write_eqb_refl. reflexivity.
+Qed.
+
+(* REFUTATION witness for a gate holding the snapshot (the seeded change C07-9: `if let (Some(link), Ok(_)) =
+   (continuity_run, snapshot)`): a `bash` envelope replaces <data>/snapshots by a regular file, so write_snapshot fails in
+   that run and in every later run of the store; the next post is a plain prompt.  Both runs are announced on the thread,
+   both write their terminal session frame, neither is ever closed. *)
+Definition swf_snapshot_dir_damaged : N -> side_write -> bool := fun _ w => side_write_eqb w SwSnapshot.
+Definition gated_acts : list act :=
+  [APost g_stub 7 1 (ITool true {| t_auto := 0; t_res := TDone 0 0 |}); APost g_stub 8 2 (IPrompt true [])].
+Definition gated_log : list ev := concat (map (act_events_x [SwSnapshot] swf_snapshot_dir_damaged all_ok) gated_acts).
+Lemma gated_wf : WfActs gated_acts.
+Proof. unfold WfActs, gated_acts. cbn. repeat split; repeat constructor; cbn; intuition discriminate. Qed.
+Lemma gated_facts :
+  count_ck (is_spawn_of 7) gated_log = 1%nat /\ count_ck (is_end_of 1) gated_log = 0%nat
+  /\ count_ck (is_spawn_of 8) gated_log = 1%nat /\ count_ck (is_end_of 2) gated_log = 0%nat
+  /\ map snd (sess_stream 1 gated_log) = [SStarted; SToolStarted; SToolEnded; SOutput; SEnded R_COMPLETED]
+  /\ map snd (sess_stream 2 gated_log) = [SStarted; SOutput; SEnded R_COMPLETED].
+Proof. vm_compute. repeat split; reflexivity. Qed.
+Lemma end_lost_when_snapshot_gates_refuted :
+  exists swf acts l g1 mid1 sid1 inp1 g2 mid2 sid2 inp2,
+    WfActs acts /\ Interleave (map (act_events_x [SwSnapshot] swf all_ok) acts) l
+    /\ In (APost g1 mid1 sid1 inp1) acts /\ In (APost g2 mid2 sid2 inp2) acts /\ sid1 <> sid2
+    /\ count_ck (is_spawn_of mid1) l = 1%nat /\ count_ck (is_end_of sid1) l = 0%nat
+    /\ count_ck (is_spawn_of mid2) l = 1%nat /\ count_ck (is_end_of sid2) l = 0%nat.
+Proof.
+  exists swf_snapshot_dir_damaged, gated_acts, gated_log, g_stub, 7, 1, (ITool true {| t_auto := 0; t_res := TDone 0 0 |}), g_stub, 8, 2, (IPrompt true []).
+  split; [exact gated_wf|]. split; [apply interleave_concat|]. split; [left; reflexivity|]. split; [right; left; reflexivity|].
+  split; [discriminate|]. destruct gated_facts as (A & B & C & D & _). repeat split; assumption.
+Qed.
+
+(* the same store under the gate the code has: both runs are closed (non-vacuity of one_end_per_spawn_x) *)
+Definition ungated_log : list ev := concat (map (act_events_x EXIT_GATE swf_snapshot_dir_damaged all_ok) gated_acts).
+Lemma ungated_facts :
+  Interleave (map (act_events_x EXIT_GATE swf_snapshot_dir_damaged all_ok) gated_acts) ungated_log
+  /\ conts ungated_log = [CMessage 7; CRunSpawned 1 7; CSideEffects 1; CRunEnded 1 7 R_COMPLETED; CMessage 8; CRunSpawned 2 8; CRunEnded 2 8 R_COMPLETED].
+Proof. split; [apply interleave_concat | vm_compute; reflexivity]. Qed.
+
+Lemma gated_run_never_ended gate : gate_unconditional gate = false ->
+  exists w, In w gate /\
+    forall (g : cfg) (sid mid : N) (aok : ck -> bool) (inp : input),
+      count_ck (is_end_of sid) (run_session_x gate (side_write_eqb w) g sid (Some mid) aok inp) = 0%nat
+      /\ SessionShape (sess_stream sid (run_session_x gate (side_write_eqb w) g sid (Some mid) aok inp)).
+Proof.
+  intros G. destruct (gate_closable gate G) as (w & Hw & C). exists w. split; [exact Hw|].
+  intros g sid mid aok inp. split; [apply run_session_x_no_end, C|].
+  rewrite sess_stream_run_session_x. apply run_session_shape.
+Qed.
